@@ -46,8 +46,21 @@ def check(pid, tier, seed, replay=None):
                         for st in sorted(set(sets)):
                             chains.append({"a": "Chain", "chain": s, "ctx": "none", "enabled": True, "fin": "Msg", "var": var, "set": st})
             meths = sorted({m for s in seqs for m in s})
+            big = {"StrBig", "BytesBig"}
+
+            def rchain(n):
+                out = []
+                for _ in range(n):
+                    m = rng.choice(meths)
+                    while m in big and any(x in big for x in out):    # at most one large value: the buffer must stay poolable
+                        m = rng.choice(meths)
+                    out.append(m)
+                return out
+            for i in range(100 if thorough else 30):     # a large Bytes value followed by many small fields: the growth path that ends at 64 KiB
+                chains.append({"a": "Chain", "chain": ["BytesBig"] + [rng.choice(["Ints", "Int", "Str", "Bools", "Floats64"]) for _ in range(rng.choice([10, 20, 30]))],
+                               "ctx": rng.choice(ctxs), "enabled": True, "fin": "Msg", "var": 0, "set": "", "wr": ""})
             for i in range(3000 if thorough else 300):   # longer random chains, still within the pooled buffer
-                chains.append({"a": "Chain", "chain": [rng.choice(meths) for _ in range(rng.randint(3, 6))], "ctx": rng.choice(ctxs),
+                chains.append({"a": "Chain", "chain": rchain(rng.randint(3, 6)), "ctx": rng.choice(ctxs),
                                "enabled": rng.random() < 0.7, "fin": rng.choice(["Msg", "Send"]), "var": rng.randrange(3), "set": rng.choice(sets),
                                "wr": "fail" if rng.random() < 0.2 else ""})
         lines = [json.dumps(c) for c in chains]
